@@ -663,6 +663,7 @@ example : (run (0:ℚ) 0 (0:Nat) (· + ·) exP exProb [0] [50, -50] none exInner
     C15.projMult1, vallFinite, norm2, sqNorm, vsum, redux, normInf, vabs, eabs, emax, emin, fmaxS,
     fminS, RealLike.isNaN, RealLike.isFinite, RealLike.sqrt, vget, ALMStats.default, b2n,
     List.range_succ]
+  norm_num
 
 /-! Excluded points are counterexamples (the hypotheses are forced), at the level of the
     generated update rules: -/
